@@ -841,6 +841,7 @@ impl FatVolume {
                             block,
                         ) {
                             Err(Error::NotFound) => continue,
+                            Err(Error::EndOfFile) => return Err(Error::NotFound),
                             x => return x,
                         }
                     }
@@ -874,6 +875,7 @@ impl FatVolume {
                             block,
                         ) {
                             Err(Error::NotFound) => continue,
+                            Err(Error::EndOfFile) => return Err(Error::NotFound),
                             x => return x,
                         }
                     }
@@ -904,8 +906,8 @@ impl FatVolume {
         for (i, dir_entry_bytes) in block.chunks_exact(OnDiskDirEntry::LEN).enumerate() {
             let dir_entry = OnDiskDirEntry::new(dir_entry_bytes);
             if dir_entry.is_end() {
-                // Can quit early
-                break;
+                // Nothing behind the end marker belongs to the directory
+                return Err(Error::EndOfFile);
             } else if dir_entry.is_valid() && !dir_entry.is_lfn() && dir_entry.matches(match_name) {
                 // Found it
                 // Block::LEN always fits on a u32
@@ -954,6 +956,10 @@ impl FatVolume {
                             Err(Error::NotFound) => {
                                 // Carry on
                             }
+                            Err(Error::EndOfFile) => {
+                                // End marker: the name is not in this directory
+                                return Err(Error::NotFound);
+                            }
                             x => {
                                 // Either we deleted it OK, or there was some
                                 // catastrophic error reading/writing the disk.
@@ -995,6 +1001,10 @@ impl FatVolume {
                             Err(Error::NotFound) => {
                                 // Carry on
                                 continue;
+                            }
+                            Err(Error::EndOfFile) => {
+                                // End marker: the name is not in this directory
+                                return Err(Error::NotFound);
                             }
                             x => {
                                 // Either we deleted it OK, or there was some
@@ -1038,8 +1048,8 @@ impl FatVolume {
         for (i, dir_entry_bytes) in block.chunks_exact_mut(OnDiskDirEntry::LEN).enumerate() {
             let dir_entry = OnDiskDirEntry::new(dir_entry_bytes);
             if dir_entry.is_end() {
-                // Can quit early
-                break;
+                // Nothing behind the end marker belongs to the directory
+                return Err(Error::EndOfFile);
             } else if dir_entry.is_valid() && !dir_entry.is_lfn() && dir_entry.matches(match_name) {
                 let start = i * OnDiskDirEntry::LEN;
                 // set first byte to the 'unused' marker
